@@ -203,6 +203,17 @@ def check_state(case):
         if np.abs(K - Kc).max() > 1e-9 * np.abs(Kc).max():
             fails.append(fail('uniform membrane state does not reproduce the constant-load geometric matrix', sig=None, case=case,
                               N=Nc, rel_err=float(np.abs(K - Kc).max() / np.abs(Kc).max())))
+    if not nl and case['gq'] in ('exact', 'two'):
+        # the state-based matrix is linear in the state (linear strains): holds for any amplitude level, also for states whose
+        # amplitudes are far below / above the ones a unit load produces
+        for sfac in (1e-6, 1e-3, 1e4):
+            Ks = pan.dense(p.calc_kG0(c=sfac * c, nx=nx, ny=ny, Fnxny=Fin.copy(), silent=True, NLgeom=False))
+            execs += 1
+            trans += 1
+            if np.abs(Ks - sfac * K).max() > 1e-9 * sfac * sc:
+                fails.append(fail('state-based kG is not homogeneous in the amplitudes of the state', sig=None, case=case, factor=sfac,
+                                  max_abs_state=float(np.abs(sfac * c).max()), rel_err=float(np.abs(Ks - sfac * K).max() / (sfac * sc))))
+                break
     if case['form'] == 'perpoint_same':
         K6 = pan.dense(p.calc_kG0(c=c.copy(), nx=nx, ny=ny, Fnxny=F.copy(), silent=True, NLgeom=nl))
         Kd = pan.dense(p.calc_kG0(c=c.copy(), nx=nx, ny=ny, silent=True, NLgeom=nl))
